@@ -611,6 +611,34 @@ func propMachine(t *rapid.T) {
 			*fresh = *m.pts[a]
 			m.pts[r], m.pinit[r], m.mp[r] = fresh, m.pinit[a], m.mp[a]
 		},
+		"retire-private": func(t *rapid.T) {
+			// the caller is done with a private key object but keeps what it handed out (its public key, its
+			// scalar, its point); the object becomes unreachable and a garbage collection runs, finalizers
+			// included.  What was handed out must be values of their own.
+			if rapid.Bool().Draw(t, "schnorr") {
+				if len(m.sprv) == 0 {
+					t.Skip("no schnorr key yet")
+				}
+				i := rapid.IntRange(0, len(m.sprv)-1).Draw(t, "key")
+				e := m.sprv[i]
+				m.log("retire-private schnorr key%d", i)
+				m.addSPub(e.k.PublicKey(), e.q.X)
+				m.sprv = append(m.sprv[:i:i], m.sprv[i+1:]...)
+			} else {
+				if len(m.privs) == 0 {
+					t.Skip("no private key yet")
+				}
+				i := rapid.IntRange(0, len(m.privs)-1).Draw(t, "key")
+				e := m.privs[i]
+				r, pr := m.sslot("r"), m.pslot("pr")
+				m.log("retire-private key%d (public key kept, scalar -> r%d, point -> r%d)", i, r, pr)
+				m.addPub(e.k.PublicKey(), e.q)
+				m.scs[r], m.ms[r] = e.k.Scalar(), new(big.Int).Set(e.d)
+				m.pts[pr], m.pinit[pr], m.mp[pr] = e.k.PublicKey().Point(), true, e.q
+				m.privs = append(m.privs[:i:i], m.privs[i+1:]...)
+			}
+			gen.CollectNow()
+		},
 		"identity-generator": func(t *rapid.T) {
 			r := m.pslot("r")
 			if rapid.Bool().Draw(t, "gen") {
